@@ -201,3 +201,54 @@ Theorem C16_source_balanced_calls_give_balanced_tokens (tagf : WV.base.Py.val ->
     dyck_mc (rev (toks s')) = true /\ length (ctms s') = 1%nat.
 Proof. intros H. exact (WV.proofs.C16_gen_stream.source_balanced tagf others impl H mark d cs). Qed.
 Print Assumptions C16_source_balanced_calls_give_balanced_tokens.
+
+(* Stream.set_color_special (def set_color_special(self, name, stroke=False, *operands)) from its regenerated body, the
+   vararg being the last parameter (the tuple of the extra arguments); pydyf's set_color_special through super() is
+   the oracle special_spec (one item appended).  Stated with qualified names: proofs/C16_gen_special.v.
+   For every object, every name (None, '' or a non-empty str), both sides and every tuple of operands: the cached
+   colour of the side whose colour the pattern replaces is dropped exactly when the name is true, one item is
+   appended, nothing else changes, nothing is raised *)
+Require WV.proofs.C16_gen_special.
+Theorem C16_source_set_color_special (tagf : WV.base.Py.val -> String.string) (pid : String.string -> Z)
+    (mk : list WV.base.Py.val) (others : list (String.string * WV.base.Py.val))
+    (ca cas cf ofo res mark : WV.base.Py.val) (st ct : list WV.base.Py.val) (cc ccs name : WV.base.Py.val)
+    (stroke : bool) (operands : list WV.base.Py.val) :
+  WV.proofs.C16_gen_special.name_ok name = true ->
+  WV.proofs.C16_gen_stream.meth_out (WV.proofs.C16_gen_special.SO3 tagf pid) WV.gen.GenStream.stream_set_color_special_body
+    (WV.proofs.C16_gen_special.special_args (WV.model.C16Py.obj st ct cc ccs ca cas cf ofo res mk mark others) name stroke operands) =
+  inl (WV.model.C16Py.obj
+         (WV.proofs.C16_gen_stream.snoc st (WV.proofs.C16_gen_special.special_item pid name (WV.base.Py.VBool stroke) operands)) ct
+         (if WV.proofs.C16_gen_special.truthy name && negb stroke then WV.base.Py.VNone else cc)
+         (if WV.proofs.C16_gen_special.truthy name && stroke then WV.base.Py.VNone else ccs)
+         ca cas cf ofo res mk mark others, WV.base.Py.VNone).
+Proof. exact (WV.proofs.C16_gen_special.set_color_special_raw tagf pid mk others ca cas cf ofo res mark st ct cc ccs name stroke operands). Qed.
+Print Assumptions C16_source_set_color_special.
+
+(* set_color_space('Pattern', stroke) (pydyf, inherited unchanged) then the regenerated set_color_special(name, stroke)
+   on the encoding of ANY model state is the model step PatternColor: the tokens Tcs, Tpat, the cached colour of that
+   side dropped (finding F12) *)
+Theorem C16_source_pattern_color_computes_model (tagf : WV.base.Py.val -> String.string) (pid : String.string -> Z)
+    (mk : list WV.base.Py.val) (others : list (String.string * WV.base.Py.val)) (name : String.string) (stroke : bool)
+    (s : st) : name <> String.EmptyString ->
+  WV.proofs.C16_gen_special.src_pattern tagf pid name stroke (WV.model.C16Py.enc mk others s) =
+  inl (WV.model.C16Py.enc mk others (m_pattern_color stroke (pid name) s), WV.base.Py.VNone).
+Proof. exact (WV.proofs.C16_gen_special.gen_pattern_color tagf pid mk others name stroke s). Qed.
+Print Assumptions C16_source_pattern_color_computes_model.
+
+(* C16_source_run_follows_model with PatternColor run from the source as well: [impl] is asked only about the
+   operations that are neither tied, nor BeginMC, nor PatternColor (impl_ok_rest) *)
+Theorem C16_source_run_follows_model_pattern (tagf : WV.base.Py.val -> String.string) (pid : String.string -> Z)
+    (pname : Z -> String.string) (others : list (String.string * WV.base.Py.val))
+    (impl : op -> WV.base.Py.val -> option WV.base.Py.val)
+    (cs : list WV.proofs.C16_gen_stream.call) (mk : list WV.base.Py.val) (s : st) :
+  (forall p, pid (pname p) = p) -> (forall p, pname p <> String.EmptyString) ->
+  WV.proofs.C16_gen_special.impl_ok_rest others impl -> WV.model.C16Py.marked_ok mk s ->
+  match run (map fst cs) s with
+  | Some s' => exists mk', WV.proofs.C16_gen_stream.grun tagf (WV.proofs.C16_gen_special.impl_special tagf pid pname impl) cs
+                             (WV.model.C16Py.enc mk others s) = Some (WV.model.C16Py.enc mk' others s') /\
+                           WV.model.C16Py.marked_ok mk' s'
+  | None => WV.proofs.C16_gen_stream.grun tagf (WV.proofs.C16_gen_special.impl_special tagf pid pname impl) cs
+              (WV.model.C16Py.enc mk others s) = None
+  end.
+Proof. intros H1 H2 H. exact (WV.proofs.C16_gen_special.grun_special_model tagf pid pname H1 H2 others impl cs mk s H). Qed.
+Print Assumptions C16_source_run_follows_model_pattern.
